@@ -1,0 +1,77 @@
+//go:build verif
+
+package dedupebuffer
+
+import (
+	"github.com/projectcalico/calico/libcalico-go/lib/backend/api"
+	"github.com/projectcalico/calico/libcalico-go/lib/backend/model"
+)
+
+// Verification-only re-exports (compiled only with -tags verif).  Nothing here
+// changes the behaviour of the package; it only lets an external harness drive
+// the unexported synchronous step and observe the internal state.
+
+// VerifSendNextBatchToSinkNoBlock re-exports sendNextBatchToSinkNoBlock.
+func (d *DedupeBuffer) VerifSendNextBatchToSinkNoBlock(sink api.SyncerCallbacks) error {
+	return d.sendNextBatchToSinkNoBlock(sink)
+}
+
+// VerifResume clears the stopped flag (the harness uses Stop() from inside a
+// sink callback to make the real send loop return after one batch).
+func (d *DedupeBuffer) VerifResume() {
+	d.lock.Lock()
+	defer d.lock.Unlock()
+	d.stopped = false
+}
+
+// VerifPendingItem is one element of the pending queue.
+type VerifPendingItem struct {
+	IsStatus bool
+	Status   api.SyncStatus
+	Key      model.Key
+	Update   api.Update
+}
+
+// VerifState is a copy of the buffer's internal state.
+type VerifState struct {
+	Pending       []VerifPendingItem
+	KeyToPending  []model.Key
+	Live          []model.Key
+	NotSeen       []model.Key
+	NotSeenIsNil  bool
+	MostRecent    api.SyncStatus
+	MapMatchesLst bool // every keyToPendingUpdate entry points at the list element holding that key
+}
+
+// VerifDump copies out the internal state.
+func (d *DedupeBuffer) VerifDump() VerifState {
+	d.lock.Lock()
+	defer d.lock.Unlock()
+	var s VerifState
+	s.MapMatchesLst = true
+	for e := d.pendingUpdates.Front(); e != nil; e = e.Next() {
+		switch v := e.Value.(type) {
+		case api.SyncStatus:
+			s.Pending = append(s.Pending, VerifPendingItem{IsStatus: true, Status: v})
+		case updateWithKey:
+			s.Pending = append(s.Pending, VerifPendingItem{Key: v.key, Update: v.update})
+			if d.keyToPendingUpdate[v.key] != e {
+				s.MapMatchesLst = false
+			}
+		}
+	}
+	for k := range d.keyToPendingUpdate {
+		s.KeyToPending = append(s.KeyToPending, k)
+	}
+	for k := range d.liveResourceKeys.All() {
+		s.Live = append(s.Live, k)
+	}
+	s.NotSeenIsNil = d.liveKeysNotSeenSinceReconnect == nil
+	if !s.NotSeenIsNil {
+		for k := range d.liveKeysNotSeenSinceReconnect.All() {
+			s.NotSeen = append(s.NotSeen, k)
+		}
+	}
+	s.MostRecent = d.mostRecentStatusReceived
+	return s
+}
